@@ -151,6 +151,9 @@ var shapes = []shape{
 	{"dir -r --match ~regex", []string{"-r", "--match", "~^a\\.", "--"}, "src", "out/"},
 	{"dir -r --exclude sub", []string{"-r", "--exclude", "src/sub/**", "--"}, "src", "out/"},
 	{"dir -r --exclude/--include", []string{"-r", "--exclude", "src/**", "--include", "src/sub/**", "--"}, "src", "out/"},
+	{"dir -r --exclude src/**", []string{"-r", "--exclude", "src/**", "--"}, "src", "out/"},
+	{"dir -r -s --exclude src/**", []string{"-r", "-s", "--exclude", "src/**", "--"}, "src", "out/"},
+	{"dir -r --include **/sub/** after --exclude **", []string{"-r", "--exclude", "**", "--include", "**/sub/**", "--"}, "src", "out/"},
 	{"dir -r --type css", []string{"-r", "--type", "css"}, "src", "out/"},
 	{"dir -r --ext.txt=css", []string{"-r", "--ext.txt=css"}, "src", "out/"},
 	{"dir -r -b→file", []string{"-r", "-b"}, "src", "bundle.out"},
@@ -645,6 +648,14 @@ func cases(maxFiles int) []caseT {
 		caseT{clitree.Tree{"real.css": {Data: css}, "link.css": {Link: "real.css"}}, shape{"symlink→itself (undocumented)", nil, "each", "SELF"}, []string{"link.css"}, "link.css", nil},
 		caseT{clitree.Tree{"real.css": {Data: css}, "link.css": {Link: "real.css"}}, shape{"symlink→its target (undocumented)", nil, "each", "real.css"}, []string{"link.css"}, "real.css", nil},
 		caseT{clitree.Tree{"real.css": {Data: css}, "link.css": {Link: "real.css"}}, shape{"symlink→new file", nil, "each", "out.min"}, []string{"link.css"}, "out.min", nil},
+	)
+	// inputs at the top level of the working directory whose names start with a dot (the root of the input is ".")
+	js := []byte("var a = 1 ;\n")
+	cs = append(cs,
+		caseT{clitree.Tree{".t.css": {Data: css}, "src/a.js": {Data: js}}, shape{"hidden top-level file + file→dir/", nil, "all", "out/"}, []string{".t.css", "src/a.js"}, "out/", nil},
+		caseT{clitree.Tree{".t.css": {Data: css}}, shape{"hidden top-level file→dir/", nil, "each", "out/"}, []string{".t.css"}, "out/", nil},
+		caseT{clitree.Tree{".hd/sub/w.css": {Data: css}, ".hd/v.js": {Data: js}}, shape{"hidden top-level dir -r -a→dir/", []string{"-r", "-a"}, "src", "out/"}, []string{".hd"}, "out/", nil},
+		caseT{clitree.Tree{".hd/sub/w.css": {Data: css}}, shape{"hidden top-level dir/ -r -a -s→dir/", []string{"-r", "-a", "-s"}, "src/", "out/"}, []string{".hd/"}, "out/", nil},
 	)
 	return cs
 }
